@@ -333,7 +333,11 @@ def groupKeep (fixed : Bool) (nl : Nat) (g : List Idx) : Bool :=
 def filterTable (rows : List PRow) (keep : List Nat) : List PRow :=
   if (dedup keep).length ≠ rows.length then rows.filter (fun r => keep.contains r.id) else rows
 
-/-- the `p`-groups, in order of first occurrence of their key (`grouper`) -/
+/-- the `p`-groups, in order of first occurrence of their key: grouping by *equality* of the key, which is what
+`grouper(..., sorted_=False)` (dict of lists) does, and what `sorted()` + adjacent `groupby` does whenever the keys
+are totally ordered or `sorted()` raises.  For hashable but only partially ordered keys (frozensets) the unchanged
+code's sorted/adjacent path differs (finding C18-F2); `fixes/C18-partial-order-grouping.diff` makes the code take
+the dict path always, which is this definition. -/
 def groupsOf (ix : List Idx) : List (List Idx) :=
   (dedup (ix.map (·.p))).map (fun k => ix.filter (fun i => i.p = k))
 
